@@ -2,6 +2,7 @@
 package lb
 
 import (
+	"go.uber.org/atomic"
 	"github.com/samaritan-proxy/samaritan/host"
 	"github.com/samaritan-proxy/samaritan/pb/config/service"
 
@@ -80,8 +81,10 @@ func VfC06_RoundRobin() {
 	hs := vfHosts(n)
 	b := newRoundRobinBalancer()
 	start := nd.Uint64("start")
-	nd.Assume(start < uint64(nd.Param("startmax", 1<<16))) // stated bound (see above); wrapping the 64-bit counter needs 1.8e19 selections
-	b.index.Store(start)
+	// stated bound: small counters and the neighbourhood of 2^32 (a counter narrower than 64 bits
+	// wraps there after ~50 days at 1000 connections/s); wrapping the 64-bit counter needs 1.8e19 selections
+	nd.Assume(start < uint64(nd.Param("startmax", 1<<16)) || (start >= 1<<32-16 && start < 1<<32+16))
+	vfSetIndex(b.index, start)
 	counts := make([]int, n)
 	nd.PanicLabel("pick-host")
 	for i := 0; i < n*k; i++ {
@@ -110,4 +113,20 @@ func VfC06_RoundRobinConcurrent() {
 	nd.Quiesce()
 	nd.Assert(got[0] != nil && got[1] != nil && got[0] != got[1], "two concurrent round-robin selections over two hosts pick each host once")
 	nd.Cover("both-picked")
+}
+
+// vfSetIndex sets the balancer's shared counter whatever integer width it is declared with.
+func vfSetIndex(idx interface{}, v uint64) {
+	switch x := idx.(type) {
+	case *atomic.Uint64:
+		x.Store(v)
+	case *atomic.Uint32:
+		x.Store(uint32(v))
+	case *atomic.Int64:
+		x.Store(int64(v))
+	case *atomic.Int32:
+		x.Store(int32(v))
+	default:
+		panic("vf: unknown counter type")
+	}
 }
